@@ -70,7 +70,7 @@ class World:
                  role_provider: bool = True, ssl_provider=None, max_subscription_duration: int = 7200,
                  sub_mgr_classes: dict | None = None, epr=None, sequence_id: str | None = None,
                  instance_id: int | None = 1, shared_server=None, alternative_hostname=None,
-                 periodic_reports_interval=None):
+                 periodic_reports_interval=None, own_server: bool = False, soap_client_class=None):
         import sdc11073.definitions_sdc  # noqa: F401  (registers the protocol definition)
         from sdc11073.mdib import ProviderMdib
         from sdc11073.provider import SdcProvider
@@ -89,7 +89,7 @@ class World:
         if sequence_id is not None:
             mdib.sequence_id = sequence_id
         comps = provider_components_async_factory() if async_mgr else provider_components_sync_factory()
-        comps.soap_client_class = L.LoopbackSoapClientAsync if async_mgr else L.LoopbackSoapClient
+        comps.soap_client_class = soap_client_class or (L.LoopbackSoapClientAsync if async_mgr else L.LoopbackSoapClient)
         if sub_mgr_classes:
             comps.subscriptions_manager_class = dict(sub_mgr_classes)
         role = None
@@ -104,9 +104,13 @@ class World:
                                     max_subscription_duration=max_subscription_duration, components=comps,
                                     role_provider_components=role, alternative_hostname=alternative_hostname)
         scheme = 'https' if ssl_provider is not None else 'http'
-        self.provider_server = shared_server or L.FakeHttpServer(scheme=scheme)
-        self.provider.start_all(start_rtsample_loop=False, shared_http_server=self.provider_server,
-                                periodic_reports_interval=periodic_reports_interval)
+        if own_server:  # the provider creates its server itself (the check has replaced the server class in the module)
+            self.provider.start_all(start_rtsample_loop=False, periodic_reports_interval=periodic_reports_interval)
+            self.provider_server = self.provider._http_server  # noqa: SLF001
+        else:
+            self.provider_server = shared_server or L.FakeHttpServer(scheme=scheme)
+            self.provider.start_all(start_rtsample_loop=False, shared_http_server=self.provider_server,
+                                    periodic_reports_interval=periodic_reports_interval)
         self.mdib = mdib
         self.consumers = []
         self.closed = False
@@ -117,20 +121,28 @@ class World:
 
     def add_consumer(self, init_mdib: bool = True, validate: bool | None = None, ssl_consumer=None,  # noqa: PLR0913
                      force_ssl_connect: bool = False, shared_server=None, not_subscribed_actions=None,
-                     alternative_hostname=None):
+                     alternative_hostname=None, own_server: bool = False, soap_client_class=None):
         from sdc11073.consumer.consumerimpl import SdcConsumer, default_components_factory
         from sdc11073.dispatch import RequestDispatcher
         from sdc11073.mdib.consumermdib import ConsumerMdib
         comps = default_components_factory()
-        comps.soap_client_class = L.LoopbackSoapClient
+        comps.soap_client_class = soap_client_class or L.LoopbackSoapClient
         comps.action_dispatcher_class = RequestDispatcher  # notifications are handled in the delivering thread
         consumer = SdcConsumer(self.provider_address, self.mdib.sdc_definitions, ssl_consumer,
                                validate=self.validate if validate is None else validate, components=comps,
                                epr=uuid.UUID(int=0x9999 + L.NET.new_port()), force_ssl_connect=force_ssl_connect,
                                alternative_hostname=alternative_hostname)
         scheme = 'https' if ssl_consumer is not None else 'http'
-        server = shared_server or L.FakeHttpServer(scheme=scheme)
-        consumer.start_all(shared_http_server=server, not_subscribed_actions=not_subscribed_actions)
+        if own_server:
+            self.consumers.append((consumer, None, None))  # (so close() stops what was started even if start_all raises)
+            consumer.start_all(not_subscribed_actions=not_subscribed_actions)
+            server = consumer._http_server  # noqa: SLF001
+            self.consumers.pop()
+        else:
+            server = shared_server or L.FakeHttpServer(scheme=scheme)
+            self.consumers.append((consumer, None, server))
+            consumer.start_all(shared_http_server=server, not_subscribed_actions=not_subscribed_actions)
+            self.consumers.pop()
         cmdib = None
         if init_mdib:
             cmdib = ConsumerMdib(consumer)
@@ -168,7 +180,8 @@ class World:
                 consumer.stop_all(unsubscribe=False)
             except Exception:  # noqa: BLE001
                 pass
-            server.stop()
+            if server is not None:
+                server.stop()
         for reg in self.provider._sco_operations_registries.values():  # noqa: SLF001
             if reg._worker is not None and not reg._worker.is_alive():  # noqa: SLF001  (inline worker, never started)
                 reg._worker = None  # noqa: SLF001
